@@ -172,7 +172,7 @@ def check_C07(ctx):
         ra = substitute(frm, lambda nd: a if nd is v else None)
         rb = substitute(frm, lambda nd: b if nd is v else None)
         ord_im = pdb.trait_impl("core::cmp::Ord", HRANK)
-        rep.ob("C07.impl-shape", "Ord items", set(ord_im["items"]) == {"cmp"}, "impl Ord for HandRank overrides %s: max/min/clamp would no longer follow cmp" % sorted(set(ord_im["items"]) - {"cmp"}), "src/hand_rank.rs")
+        extra_ord = sorted(set(ord_im["items"]) - {"cmp"})
         kcmp = ord_im["items"]["cmp"]
         dag = ctx.summ(kcmp, [("r", ra), ("r", rb)]).ret
         # the comparison may depend on (a, b) only through comparisons with constants and with each other
@@ -250,14 +250,47 @@ def check_C07(ctx):
                     "example": {"a": reps[1], "b": reps[-1], "cmp": table[(reps[1], reps[-1])]}})
         # partial_cmp = Some(cmp)
         po = pdb.trait_impl("core::cmp::PartialOrd", HRANK)
-        rep.ob("C07.impl-shape", "PartialOrd items", set(po["items"]) == {"partial_cmp"}, "impl PartialOrd for HandRank overrides %s: the operators no longer follow cmp" % sorted(set(po["items"]) - {"partial_cmp"}), "src/hand_rank.rs")
+        # operators / max / min that the impl overrides must agree with cmp on every representative pair
+        opspec = {"lt": lambda c: c < 0, "le": lambda c: c <= 0, "gt": lambda c: c > 0, "ge": lambda c: c >= 0}
+        for nm in sorted(set(po["items"]) - {"partial_cmp"}):
+            if nm not in opspec:
+                rep.uncertified("C07.operators", "impl PartialOrd for HandRank overrides %s" % nm, "src/hand_rank.rs")
+                continue
+            od = ctx.summ(po["items"][nm], [("r", ra), ("r", rb)]).ret
+            badop = None
+            for (x, y), c_ in table.items():
+                if bool(cval(ctx.fold(od, {"a": x, "b": y}))) != opspec[nm](c_):
+                    badop = badop or (x, y)
+            rep.ob("C07.operators", nm, badop is None, "the overridden operator `%s` disagrees with cmp for from(%s) vs from(%s)" % ((nm,) + (badop or (0, 0))), pdb.where(po["items"][nm]))
+        for nm in extra_ord:
+            if nm not in ("max", "min"):
+                rep.uncertified("C07.operators", "impl Ord for HandRank overrides %s" % nm, "src/hand_rank.rs")
+                continue
+            od = ctx.summ(ord_im["items"][nm], [("v", ra), ("v", rb)]).ret
+            badop = None
+            for (x, y), c_ in table.items():
+                r_ = ctx.fold(od, {"a": x, "b": y})
+                gotv = cval(r_[2][0]) if r_[0] == "agg" else None
+                want = (y if c_ <= 0 else x) if nm == "max" else (x if c_ <= 0 else y)
+                if gotv != want:
+                    badop = badop or (x, y)
+            rep.ob("C07.operators", nm, badop is None, "the overridden `%s` disagrees with cmp for from(%s), from(%s)" % ((nm,) + (badop or (0, 0))), pdb.where(ord_im["items"][nm]))
         kp = po["items"]["partial_cmp"]
         pr = ctx.summ(kp, [("r", ra), ("r", rb)]).ret
         ok = pr[0] == "agg" and pr[1] == ("adt", "core::option::Option", 1) and pr[2][0] is dag
         rep.ob("C07.partial_cmp", "Some(cmp)", ok, "partial_cmp is not Some(self.cmp(other))", pdb.where(kp))
-        for tr in ("core::cmp::PartialEq", "core::cmp::Eq", "core::hash::Hash"):
-            im2 = pdb.trait_impl(tr, HRANK)
-            rep.ob("C07.derives", "HandRank: " + tr.split("::")[-1], im2 is not None and im2["derived"], "%s for HandRank is not derived (equality/hash must be field-wise)" % tr, "src/hand_rank.rs")
+        im2 = pdb.trait_impl("core::cmp::PartialEq", HRANK)
+        if im2 is not None and im2["derived"]:
+            rep.ob("C07.equality", "HandRank: PartialEq derived (field-wise)", True)
+        elif im2 is not None and "eq" in im2["items"]:
+            ed = ctx.summ(im2["items"]["eq"], [("r", ra), ("r", rb)]).ret
+            badeq = None
+            for (x, y) in table:
+                if bool(cval(ctx.fold(ed, {"a": x, "b": y}))) != (x == y):
+                    badeq = badeq or (x, y)
+            rep.ob("C07.equality", "hand-written PartialEq", badeq is None and "ne" not in im2["items"], "== on converted ranks is not equality of their values, e.g. from(%s) vs from(%s)" % (badeq or (0, 0)), pdb.where(im2["items"]["eq"]))
+        else:
+            rep.ob("C07.equality", "HandRank: PartialEq", False, "HandRank has no PartialEq impl")
     ctx.guard("C07.cmp", cmp_table)
 
     def enums():
@@ -314,8 +347,31 @@ class StrModel:
             if m == "has_ascii_token":
                 return C(1 if pos < len(toks) else 0, "bool")
             return C(toks[pos] if pos < len(toks) else "", "str")
+        if m in ("has_byte", "byte_at"):
+            b = text.encode("utf-8")
+            pos = rest[0][1]
+            if m == "has_byte":
+                return C(1 if pos < len(b) else 0, "bool")
+            return C(b[pos] if pos < len(b) else 0, "u8")
         if m == "str_len":
             return C(len(text.encode("utf-8")), "usize")
+        if m in ("str_slice", "is_char_boundary_range"):
+            # byte-offset slicing: (lo,) | (lo, hi) | ... given as a tuple aggregate of usize
+            rng = rest[0]
+            b = text.encode("utf-8")
+            if rng[0] == "agg":
+                nums = [x[1] for x in rng[2] if x[0] == "c" and x[2] != "bool"]
+            else:
+                nums = [rng[1]]
+            lo = nums[0] if nums else 0
+            hi = nums[1] if len(nums) > 1 else len(b)
+
+            def boundary(i):
+                return 0 <= i <= len(b) and (i == len(b) or (b[i] & 0xC0) != 0x80)
+            ok = lo <= hi and boundary(lo) and boundary(hi)
+            if m == "is_char_boundary_range":
+                return C(1 if ok else 0, "bool")
+            return C(b[lo:hi].decode("utf-8") if ok else "", "str")
         raise Uncertified("string operation %s has no concrete semantics here" % m)
 
 
@@ -400,15 +456,17 @@ def check_C12(ctx):
         other = set()
         for x in walk(dag):
             if x[0] == "call":
-                if x[1] in ("has_char", "char_at"):
+                if x[1] in ("has_char", "char_at") and x[2][0][0] != "call":
                     positions.add(cval(x[2][1]))
+                elif x[1] in ("has_char", "char_at", "has_byte", "byte_at", "str_slice", "is_char_boundary_range"):
+                    pass  # reads through byte offsets / sub-slices: decided by the fold and the panic-site check below
                 else:
                     other.add(x[1])
         for o in s_.obligations:
             for x in walk(o.cond):
-                if x[0] == "call" and x[1] not in ("has_char", "char_at"):
+                if x[0] == "call" and x[1] not in ("has_char", "char_at", "has_byte", "byte_at", "str_slice", "is_char_boundary_range"):
                     other.add(x[1])
-        rep.ob("C12.token-reads", "positions", positions <= {0, 1} and positions, "from_index reads character positions %s (the tail must not matter)" % sorted(positions, key=str), pdb.where(key))
+        rep.ob("C12.token-reads", "positions", positions <= {0, 1}, "from_index reads character positions %s (the tail must not matter)" % sorted(positions, key=str), pdb.where(key))
         rep.ob("C12.token-reads", "operations", not other, "from_index uses text operations other than reading characters in order: %s" % sorted(other), pdb.where(key))
         strs = [""] + [a for a in alphabet] + [a + b for a in alphabet for b in alphabet] + [a + b + "zz♠" for a in "Ak9x" for b in "S♥dx"]
         bad = None
